@@ -54,6 +54,10 @@ def wanted (fs : List Filter) (e : Ev) : Bool := fs.any (·.invoke e)
 inductive Act
   | arrive (e : Ev)
   | consume
+  /-- the goroutine receives one event but `client.Send` fails: `stream` logs and returns -/
+  | consumeFail
+  /-- `Stop()` (stop request or client disconnect): sets `stopped`, closes `eventCh` -/
+  | stop
   deriving DecidableEq, Repr, Inhabited
 
 structure ES where
@@ -61,20 +65,34 @@ structure ES where
   buf : List Ev := []
   /-- records sent to the client, oldest first -/
   sent : List Ev := []
-  /-- ghost: every wanted arrival with its fate (`true` = entered the buffer) -/
+  /-- ghost: every wanted arrival at a live stream with its fate (`true` = entered the buffer) -/
   log : List (Ev × Bool) := []
+  /-- `es.stopped` (HandleEvent returns early; the goroutine still drains what is buffered) -/
+  stopped : Bool := false
+  /-- the event whose `client.Send` failed (at most one: the goroutine returns) -/
+  lost : List Ev := []
+  /-- the `stream` goroutine has returned after a failed send -/
+  dead : Bool := false
   deriving Repr, Inhabited
 
 def esStep (fs : List Filter) (cap : Nat) (s : ES) : Act → ES
   | .arrive e =>
-    if wanted fs e then
+    if s.stopped then s                               -- `if es.stopped { return }`
+    else if wanted fs e then
       if s.buf.length < cap then { s with buf := s.buf ++ [e], log := s.log ++ [(e, true)] }
       else { s with log := s.log ++ [(e, false)] }   -- `default:` branch: dropped
     else s
   | .consume =>
-    match s.buf with
-    | [] => s
-    | e :: r => { s with buf := r, sent := s.sent ++ [e] }
+    if s.dead then s
+    else match s.buf with
+      | [] => s
+      | e :: r => { s with buf := r, sent := s.sent ++ [e] }
+  | .consumeFail =>
+    if s.dead then s
+    else match s.buf with
+      | [] => s
+      | e :: r => { s with buf := r, lost := [e], dead := true }
+  | .stop => { s with stopped := true }
 
 def esRun (fs : List Filter) (cap : Nat) (sched : List Act) : ES := sched.foldl (esStep fs cap) {}
 
@@ -147,10 +165,16 @@ def callStep (sh : StopShape) (fs : List Filter) (cap : Nat) (s : SS) : Call →
 def callRun (sh : StopShape) (fs : List Filter) (cap : Nat) (s : SS) (calls : List Call) : SS :=
   calls.foldl (callStep sh fs cap) s
 
-def arrivals : List Act → List Ev
+/-- the events dispatched to the stream while it is open (before the first `stop`) -/
+def liveArrivals : List Act → List Ev
   | [] => []
-  | .arrive e :: r => e :: arrivals r
-  | .consume :: r => arrivals r
+  | .arrive e :: r => e :: liveArrivals r
+  | .consume :: r => liveArrivals r
+  | .consumeFail :: r => liveArrivals r
+  | .stop :: _ => []
+
+/-- capacity of `eventCh` in `newEventStream` -/
+def ipcChanCap : Nat := 512
 
 /-! ## Query response stream -/
 
@@ -252,5 +276,116 @@ def wellFormed (out : List Rec) : Bool :=
   match out.reverse with
   | .done :: pre => pre.all (!·.isDone)
   | _ => false
+
+/-! ## Shapes regenerated from the source (`Gen/IpcStreamShape.lean`) -/
+
+/-- `handleStream`: how the client's filter string reaches the stream -/
+structure StreamRequestShape where
+  parseCalls : Nat
+  /-- argument of `ParseEventFilter(…)` -/
+  parseArg : String
+  /-- right-hand side of `filters := …` -/
+  filtersFrom : String
+  /-- second argument of `newEventStream(…)` -/
+  ctorFilterArg : String
+  /-- assignments to `req`, `req.Type` or `filters` after their definition -/
+  writes : Nat
+  deriving DecidableEq, Repr, Inhabited
+
+/-- the string the client sent is parsed verbatim and the parsed filters are the stream's filters -/
+def StreamRequestShape.ok (s : StreamRequestShape) : Bool :=
+  s.parseCalls == 1 && s.parseArg == "req.Type" && s.filtersFrom == "ParseEventFilter(req.Type)" &&
+  s.ctorFilterArg == "filters" && s.writes == 0
+
+structure EventStreamShape where
+  /-- `for _, f := range <filterRange>` at the head of HandleEvent -/
+  filterRange : String
+  filterCond : String
+  matchJumps : Bool
+  /-- the statement after the loop is `return` (no filter matched) -/
+  unmatchedReturns : Bool
+  chanCap : Nat
+  /-- `for event := range <streamRange>` in `stream` -/
+  streamRange : String
+  deriving DecidableEq, Repr, Inhabited
+
+def EventStreamShape.ok (s : EventStreamShape) : Bool :=
+  s.filterRange == "es.filters" && s.filterCond == "f.Invoke(e)" && s.matchJumps && s.unmatchedReturns &&
+  s.chanCap == ipcChanCap && s.streamRange == "es.eventCh"
+
+/-- one receive case of the select in `queryResponseStream.Stream` -/
+structure RecvShape where
+  ch : String
+  /-- `v, ok := <-ch` -/
+  okFlag : Bool
+  /-- the first statement is exactly `if !ok { ch = nil; continue }` -/
+  closedBranchExact : Bool
+  send : String
+  sendFailureReturns : Bool
+  extraStmts : Nat
+  deriving DecidableEq, Repr, Inhabited
+
+structure QueryLoopShape where
+  recvs : List RecvShape
+  loopHasCondition : Bool
+  doneCases : Nat
+  /-- the `<-done` case is `if err := qs.sendDone(); … ; return` -/
+  doneCaseSendsAndReturns : Bool
+  /-- calls of `qs.sendDone` in `Stream` -/
+  sendDoneSites : Nat
+  breaksOrGotos : Nat
+  deriving DecidableEq, Repr, Inhabited
+
+def canonicalRecvs : List RecvShape :=
+  [{ ch := "ackCh", okFlag := true, closedBranchExact := true, send := "qs.sendAck(a)", sendFailureReturns := true, extraStmts := 0 },
+   { ch := "respCh", okFlag := true, closedBranchExact := true, send := "qs.sendResponse(r.From, r.Payload)", sendFailureReturns := true, extraStmts := 0 }]
+
+/-- Variation points of the select loop. -/
+structure QVariant where
+  /-- the ack / response receive handles a closed channel (`ok` flag, `ch = nil; continue`) -/
+  ackOk : Bool := true
+  respOk : Bool := true
+  /-- a completion record is (also) sent when the response channel is found closed and the loop goes on
+  (a `break` inside the select leaves only the select) -/
+  doneOnRespClose : Bool := false
+  deriving DecidableEq, Repr, Inhabited
+
+def goodQ : QVariant := {}
+
+/-- the variant the extracted loop shape denotes -/
+def qVariantOf (sh : QueryLoopShape) : QVariant :=
+  let find := fun (c : String) => sh.recvs.find? (·.ch == c)
+  let okOf := fun (c : String) => match find c with
+    | some r => r.okFlag && r.closedBranchExact && r.sendFailureReturns && r.extraStmts == 0
+    | none => false
+  { ackOk := okOf "ackCh" && (find "ackCh").map (·.send) == some "qs.sendAck(a)",
+    respOk := okOf "respCh" && (find "respCh").map (·.send) == some "qs.sendResponse(r.From, r.Payload)",
+    doneOnRespClose := !(sh.sendDoneSites == 1 && sh.breaksOrGotos == 0 && sh.doneCases == 1 && sh.doneCaseSendsAndReturns &&
+        !sh.loopHasCondition && sh.recvs.length == 2) }
+
+/-- the select loop for a variant; `qStepV goodQ = qStep` -/
+def qStepV (v : QVariant) (s : QS) : QAct → QS
+  | .selAck ok =>
+    if s.stopped || s.ackNil then s
+    else match s.ackQ with
+      | a :: r => if ok then { s with ackQ := r, out := s.out ++ [.ack a] } else { s with ackQ := r, stopped := true, failed := true }
+      | [] =>
+        if s.closed then
+          if v.ackOk then { s with ackNil := true }
+          else if ok then { s with out := s.out ++ [.ack ""] } else { s with stopped := true, failed := true }
+        else s
+  | .selResp ok =>
+    if s.stopped || s.respNil then s
+    else match s.respQ with
+      | (f, p) :: r => if ok then { s with respQ := r, out := s.out ++ [.response f p] } else { s with respQ := r, stopped := true, failed := true }
+      | [] =>
+        if s.closed then
+          if v.doneOnRespClose then { s with respNil := true, out := s.out ++ [.done] }
+          else if v.respOk then { s with respNil := true }
+          else if ok then { s with out := s.out ++ [.response "" ""] } else { s with stopped := true, failed := true }
+        else s
+  | a => qStep s a
+
+def qRunV (v : QVariant) (init : QS) (sched : List QAct) : QS := sched.foldl (qStepV v) init
 
 end SerfModel.IpcStreams
